@@ -196,57 +196,82 @@ def make_protocol_class(rec):
     return TableProtocol
 
 
-def _hooks(rec, label, sampler):
+def _hooks_for(rec, label, sampler):
+    """recording overrides of the three handler hooks; each calls the next implementation in the MRO
+    of the class that DEFINES the override (so leaf subclasses that add nothing work)."""
+    holder = {}
+
     def initialize(self):
         rec.trace.append(["hinit", label])
-        return super(type(self), self).initialize()
+        return super(holder["cls"], self).initialize()
 
     def after_simulation_step(self, iteration, timestamp):
         rec.trace.append(["after", label, iteration, to_ticks(timestamp)])
         if sampler:
             rec.sample_positions()
-        return super(type(self), self).after_simulation_step(iteration, timestamp)
+        return super(holder["cls"], self).after_simulation_step(iteration, timestamp)
 
     def finalize(self):
         rec.trace.append(["hfinal", label])
-        return super(type(self), self).finalize()
+        return super(holder["cls"], self).finalize()
 
-    return {"initialize": initialize, "after_simulation_step": after_simulation_step, "finalize": finalize}
+    class _Hooks(dict):
+        pass
+
+    hooks = _Hooks({"initialize": initialize, "after_simulation_step": after_simulation_step, "finalize": finalize})
+    hooks.holder = holder
+    return hooks
+
+
+def _mk(name, bases, hooks):
+    cls = type(name, bases, dict(hooks))
+    hooks.holder["cls"] = cls
+    return cls
+
+
+def _leaf(base_cls, name, label_hash):
+    """Some handlers get their hooks from an intermediate base class and a leaf class that adds
+    nothing (a common way to write handlers: subclass an existing one, change only the label)."""
+    if label_hash % 2 == 0:
+        return base_cls
+    return type(name + "Leaf", (base_cls,), {})
 
 
 def make_handler(rec, label, cfg, sampler):
     """A recording handler: subclass of the real handler for the three real labels, otherwise a
     no-op INodeHandler with the given label."""
-    hooks = _hooks(rec, label, sampler)
+    import zlib
+    hooks = _hooks_for(rec, label, sampler)
+    lh = zlib.crc32(label.encode()) + cfg["nNodes"]
     if label == "timer" and cfg["hasTimer"]:
-        cls = type("RecTimerHandler", (TimerHandler,), hooks)
+        cls = _leaf(_mk("RecTimerHandler", (TimerHandler,), hooks), "RecTimerHandler", lh)
         return cls()
     if label == "communication" and cfg["hasComm"]:
-        cls = type("RecCommunicationHandler", (CommunicationHandler,), hooks)
+        cls = _leaf(_mk("RecCommunicationHandler", (CommunicationHandler,), hooks), "RecCommunicationHandler", lh)
         medium = CommunicationMedium(transmission_range=bitsf(cfg["defaultRange"]),
                                      delay=cfg["delay"] / TICK,
                                      failure_rate=bitsf(cfg["failRate"]))
         return cls(medium)
     if label == "mobility" and cfg["hasMob"]:
-        cls = type("RecMobilityHandler", (MobilityHandler,), hooks)
+        cls = _leaf(_mk("RecMobilityHandler", (MobilityHandler,), hooks), "RecMobilityHandler", lh)
         conf = MobilityConfiguration(update_rate=bitsf(cfg["dtS"]),
                                      default_speed=bitsf(cfg["defaultSpeed"]),
                                      reference_coordinates=bitsv3(cfg["refGeo"]))
         return cls(conf)
 
     class Generic(INodeHandler):
-        @staticmethod
-        def get_label():
-            return label
-
         def inject(self, event_loop):
             pass
 
         def register_node(self, node):
             pass
 
-    cls = type("RecHandler_" + label, (Generic,), hooks)
-    return cls()
+    if lh % 2 == 0:
+        hooks["get_label"] = staticmethod(lambda: label)
+        return _mk("RecHandler_" + label, (Generic,), hooks)()
+    base = _mk("RecHandlerBase_" + label, (Generic,), hooks)
+    leaf = type("RecHandler_" + label, (base,), {"get_label": staticmethod(lambda: label)})
+    return leaf()
 
 
 def build(scn, rec, sim_options=None):
